@@ -94,6 +94,13 @@ CHECK_DEADLOCK FALSE
         ec.eng_seq(bd, tq, seed=seed * 1000 + 700 + i, runs=80 if quick else 150, steps=40, cfg="mem", sweep=1)
         traces.append((tq, "sequential sessions on random programs (sweep regime)"))
 
+    # the same over DbBacked<MemKv> with clean restarts between sessions (sweep regime): a reader handed
+    # out after a reopen and a commit must not see the new epoch with results of the old inputs
+    for i in range(1 if quick else 4):
+        tq = os.path.join(wd, f"seq_restart_{i}.ndjson")
+        ec.eng_persist(bd, tq, seed=seed * 1000 + 750 + i, runs=60 if quick else 150, steps=40, regime="hold", sweep=1)
+        traces.append((tq, "sequential sessions with clean restarts (sweep regime, DbBacked<MemKv>)"))
+
     states = transitions = events = 0
     by_kind = {}
     stats = {}
